@@ -13,7 +13,7 @@ DESIGN_REF = "DESIGN.md section 4 / C08"
 CHUNK = 1
 RULE = ("complete enumeration, for n<=3, of per-variable (box letter in {free,lo,up,box}) "
         "x (position L/I/U) x (gradient letter from 5 values incl. 0 and equal magnitudes "
-        "=> tied breakpoints) x memory contents (0,1,2,2',3 stored pairs + dense pairs), "
+        "=> tied breakpoints) x memory contents (0,1,2,2',3 stored pairs + dense pairs) x iteration number {1, and 0 when pairs are stored}, "
         "plus tilings of every 2-variable pattern to n in 4..10, plus every input "
         "intercepted at lbfgsb.main.get_cauchy_point during real runs; each input is given "
         "to the real get_cauchy_point and compared with a dense piecewise-quadratic "
@@ -31,14 +31,19 @@ def cases(tier, variants):
         # cheap enough: the synthetic enumeration runs under ALL numeric variants on every
         # change (ties and 1-ulp events depend on the numeric table, see DESIGN.md)
         variants_syn = list(range(core.NVAR))
-        yield from comp.syn_batches((1, 2), variants_syn)
-        yield from comp.syn_batches((3,), variants_syn, third=0)
-        yield from comp.tiled_batches((5, 8), variants_syn)
+        for gen in (comp.syn_batches((1, 2), variants_syn),
+                    comp.syn_batches((3,), variants_syn, third=0),
+                    comp.tiled_batches((5, 8), variants_syn)):
+            for b in gen:
+                # (the iteration-number letter under the seed's variant only)
+                yield dict(b, it0=b["var"] in variants)
         yield from F.convex_cases(2, variants, (1, 3), fams=("qp", "soft"),
                                   hesses=("rot2",), extra=dict(part="icp"))
     else:
-        yield from comp.syn_batches((1, 2, 3), variants)
-        yield from comp.tiled_batches((4, 5, 6, 7, 8, 9, 10), variants)
+        for gen in (comp.syn_batches((1, 2, 3), variants),
+                    comp.tiled_batches((4, 5, 6, 7, 8, 9, 10), variants)):
+            for b in gen:
+                yield dict(b, it0=True)
         yield from F.convex_cases(2, variants, (1, 3, 10), extra=dict(part="icp"))
         yield from F.convex_cases(3, variants[:1], (2,), fams=("quart",),
                                   hesses=("rot4",), extra=dict(part="icp"))
@@ -49,7 +54,7 @@ def _one(c):
     if F.pgnorm(x, g, lb, ub) == 0:
         return None
     mats = comp.mats_for(c["n"], c["ps"])
-    out, xr, B = comp.check_gcp(x, g, lb, ub, comp.fresh_mats(mats))
+    out, xr, B = comp.check_gcp(x, g, lb, ub, comp.fresh_mats(mats), c.get("it", 1))
     return out, x, g, lb, ub, xr
 
 
@@ -63,7 +68,13 @@ def run(case):
                     nontrivial=core.case_hash(case))
     if part == "syn":
         viol, keys, outc, nex = [], [], Counter(), 0
-        for c in comp.expand(case):
+        # letter: the iteration number handed to the routine (0 = "first iteration", with
+        # a non-empty memory as after a restart, or 1); the Cauchy point is a function of
+        # the model, not of the iteration counter
+        cs = comp.expand(case)
+        if case.get("it0") and case["ps"] not in (0, "0"):
+            cs = [c_ for c in cs for c_ in (c, dict(c, it=0))]
+        for c in cs:
             r = _one(c)
             if r is None:
                 outc["zero_pg"] += 1
